@@ -586,7 +586,8 @@ Section Ring32Inv.
   Proof.
     intros x Hx. unfold init_int64. rewrite (ltb_neg x Hx). unfold canon in Hx. pose proof p_small_s32.
     assert (Es : s64 p = p) by (unfold s64, W64; rewrite Z.mod_small by lia; lia).
-    rewrite Es. rewrite Z.rem_small by lia. rewrite u32_small by (pose proof (p_lt_W F HF); lia). apply init_tail_ok. exact Hx.
+    rewrite Es. rewrite Z.rem_small by lia. rewrite Z.abs_eq by lia.
+    rewrite u32_small by (pose proof (p_lt_W F HF); lia). apply init_tail_ok. exact Hx.
   Qed.
   Theorem init_uint64_id : Init_identity init_uint64.
   Proof.
@@ -599,26 +600,16 @@ Section Ring32Inv.
     intros x Hx. unfold init_integer. rewrite (ltb_neg x Hx). unfold canon in Hx. rewrite Z.abs_eq by lia.
     rewrite Z.mod_small by lia. rewrite u32_small by (pose proof (p_lt_W F HF); lia). apply init_tail_ok. exact Hx.
   Qed.
+  Lemma s64_can x : can x -> s64 x = x.
+  Proof. intros Hx. unfold canon in Hx. pose proof p_small_s32. unfold s64, W64. rewrite Z.mod_small by lia. lia. Qed.
   Theorem init_int32_id : Init_identity init_int32.
-  Proof.
-    intros x Hx. unfold init_int32. rewrite (ltb_neg x Hx). unfold canon in Hx. pose proof (p_lt_W F HF).
-    rewrite (u32_small x) by lia. rewrite Z.mod_small by lia. rewrite u32_small by lia. apply init_tail_ok. exact Hx.
-  Qed.
+  Proof. intros x Hx. unfold init_int32. rewrite (s64_can x Hx). apply init_int64_id. exact Hx. Qed.
   Theorem init_uint32_id : Init_identity init_uint32.
-  Proof.
-    intros x Hx. unfold init_uint32. unfold canon in Hx. pose proof (p_lt_W F HF).
-    rewrite (u32_small x) by lia. rewrite Z.mod_small by lia. rewrite u32_small by lia. apply init_tail_ok. exact Hx.
-  Qed.
+  Proof. intros x Hx. unfold init_uint32. rewrite (s64_can x Hx). apply init_int64_id. exact Hx. Qed.
   Theorem init_longlong_id : Init_identity init_longlong.
-  Proof.
-    intros x Hx. unfold init_longlong. rewrite (ltb_neg x Hx). unfold canon in Hx. pose proof (p_lt_W F HF).
-    rewrite (u32_small x) by lia. rewrite Z.mod_small by lia. rewrite u32_small by lia. apply init_tail_ok. exact Hx.
-  Qed.
+  Proof. intros x Hx. unfold init_longlong. rewrite (s64_can x Hx). apply init_int64_id. exact Hx. Qed.
   Theorem init_ulonglong_id : Init_identity init_ulonglong.
-  Proof.
-    intros x Hx. unfold init_ulonglong. unfold canon in Hx. pose proof (p_lt_W F HF).
-    rewrite (u32_small x) by lia. rewrite Z.mod_small by lia. rewrite u32_small by lia. apply init_tail_ok. exact Hx.
-  Qed.
+  Proof. intros x Hx. unfold init_ulonglong. rewrite (s64_can x Hx). apply init_int64_id. exact Hx. Qed.
 
   (* convert is a bijection of [0,p): init after convert gives the element back *)
   Theorem convert_init a : can a -> can (V a) /\ init_uint32 F (V a) = a.
